@@ -408,7 +408,10 @@ Definition par_allowedb (keep : bool) (outs : list pres) (r : pret) : bool :=
 (* ===================================================================================================== *)
 (** * CancelFunctionStore (cancel_functions.go:14-37) *)
 
-Inductive sop := SReg (fs : list nat) | SCancel | SLen.     (* RegisterCancelFunction(fs...) is variadic *)
+(* RegisterCancelFunction(fs...) is variadic and COPIES its arguments (append to the store's own slice): what the store
+   holds after the call is independent of anything the caller later does to the slice it passed.  [SScribble] is the
+   caller overwriting / clearing / appending to / reusing that slice after the call: no effect on the store. *)
+Inductive sop := SReg (fs : list nat) | SCancel | SLen | SScribble.
 
 (* program counter of one goroutine inside one call *)
 Inductive spc :=
@@ -453,6 +456,7 @@ Definition th_step (s : sstate) (th : thread) : option (sstate * thread) :=
       | SReg f :: r => Some (s, mkTh r (SRegWant f) must called outs)
       | SCancel :: r => Some (s, mkTh r SCanWant rdn [] outs)            (* Cancel is called: ghost snapshot *)
       | SLen :: r => Some (s, mkTh r SLenWant must called outs)
+      | SScribble :: r => Some (s, mkTh r SIdle must called ([] :: outs))   (* caller-side writes: the store is not touched *)
       end
   | SRegWant f => if negb wr && (rd =? 0) then Some (mkS fns true rd ths rdn cs, mkTh ops (SRegRead f) must called outs) else None
   | SRegRead f => Some (s, mkTh ops (SRegWrite f fns) must called outs)
